@@ -202,7 +202,9 @@ def materialize_log_project(rnd, p, targs, prog):
                 k, flavour = st[1], st[2]
                 pad = ''
                 if flavour == 'long':
-                    pad = ' ' + 'x' * rnd.choice([300, 5000, 70000])
+                    # (also lines made of two-byte characters, with an odd or even prefix: a fixed byte boundary falls
+                    # inside a character for one of them)
+                    pad = ' ' + rnd.choice(['x', 'x', '\u00e9', 'x\u00e9']) * rnd.choice([300, 5000, 70000])
                 if flavour == 'pieces':
                     # one line reaching the follower in three reads (./configure style progress output)
                     lines.append('printf "L " >&2; sleep 0.07; printf "%s " >&2; sleep 0.07; printf "%d\\n" >&2' % (t, k))
@@ -219,7 +221,7 @@ def materialize_log_project(rnd, p, targs, prog):
             f.write('\n'.join(lines) + '\n')
 
 
-LINE_RE = re.compile(r'^L (\S+) (\d+)( x+)?$')
+LINE_RE = re.compile(r'^L (\S+) (\d+)( [x\u00e9]+)?$')
 
 
 def tokenize(text, exe, expect):
